@@ -3,3 +3,5 @@ import XtModel.Model.Encoding
 import XtModel.Props.C07
 import XtModel.Model.TomlOrder
 import XtModel.Props.C01
+import XtModel.Model.Json
+import XtModel.Props.Json
